@@ -288,6 +288,12 @@ func runC03(c *Ctx) {
 	c.Note("set_history_depth", fmt.Sprint(depth))
 	for _, alpha := range c03SetAlphabets() {
 		exploreE2(c, &setSys{elems: alpha.elems, name: alpha.name}, depth, "set["+alpha.name+"].")
+		// the same search from non-initial states: three members (a bucket of length 3 has spare
+		// capacity when the members collide), four, and a populated second set
+		d2 := depth - 2
+		exploreE2(c, &setSys{elems: alpha.elems, name: alpha.name + "/A={e0,e1,e2}", initA: []int{0, 1, 2}, initB: []int{3}}, d2, "set["+alpha.name+"/3].")
+		exploreE2(c, &setSys{elems: alpha.elems, name: alpha.name + "/A={e0..e3},B={e1,e4}", initA: []int{0, 1, 2, 3}, initB: []int{1, 4}}, d2, "set["+alpha.name+"/4].")
+		exploreE2(c, &setSys{elems: alpha.elems, name: alpha.name + "/A={e2,e1,e0},B={}", initA: []int{2, 1, 0}}, d2, "set["+alpha.name+"/3r].")
 	}
 	// constructor permutations
 	c03Permutations(c)
@@ -445,11 +451,13 @@ func int64Hash(i int64) int { return cty.NumberIntVal(i).Hash() }
 type setSys struct {
 	name  string
 	elems []cty.Value
+	initA []int // members A holds in the initial state (start from non-initial states too)
+	initB []int
 }
 
 var setAlgebra = []string{"Union", "Intersection", "Subtract", "SymmetricDifference"}
 
-func (s *setSys) NumOps() int { return 2*len(s.elems) + 2 + len(setAlgebra) }
+func (s *setSys) NumOps() int { return 2*len(s.elems) + 2 + 2*len(setAlgebra) }
 func (s *setSys) OpName(i int) string {
 	n := len(s.elems)
 	switch {
@@ -462,7 +470,11 @@ func (s *setSys) OpName(i int) string {
 	case i == 2*n+1:
 		return "swap(A,B)"
 	}
-	return "A=A." + setAlgebra[i-2*n-2] + "(B)"
+	if k := i - 2*n - 2; k < len(setAlgebra) {
+		return "A=A." + setAlgebra[k] + "(B)"
+	}
+	// the result replaces B: the receiver A stays alive next to it
+	return "B=A." + setAlgebra[i-2*n-2-len(setAlgebra)] + "(B)"
 }
 
 type setInst struct {
@@ -484,6 +496,14 @@ func (s *setSys) New() E2Inst {
 				break
 			}
 		}
+	}
+	for _, i := range s.initA {
+		inst.A.Add(s.elems[i])
+		inst.mA = modelAdd(inst.mA, inst.cls[i])
+	}
+	for _, i := range s.initB {
+		inst.B.Add(s.elems[i])
+		inst.mB = modelAdd(inst.mB, inst.cls[i])
 	}
 	return inst
 }
@@ -549,7 +569,8 @@ func (in *setInst) Apply(op int, check bool, report func(site, shape, detail str
 	default:
 		var r cty.ValueSet
 		var m []int
-		switch setAlgebra[op-2*n-2] {
+		intoB := op-2*n-2 >= len(setAlgebra)
+		switch setAlgebra[(op-2*n-2)%len(setAlgebra)] {
 		case "Union":
 			r = in.A.Union(in.B)
 			m = append([]int(nil), in.mA...)
@@ -584,7 +605,12 @@ func (in *setInst) Apply(op int, check bool, report func(site, shape, detail str
 			}
 			sort.Ints(m)
 		}
-		in.A, in.mA = r, m
+		if intoB {
+			in.B, in.mB = r, m
+			bTouched = true
+		} else {
+			in.A, in.mA = r, m
+		}
 	}
 	if !check {
 		return true
